@@ -208,6 +208,33 @@ def property_feed_shift(ant, p, zl, real_ground=False):
     tol = 1e-9 * max(cn, 1) * max(abs(m0.sources[0].impedance), abs(zl))
     if abs(d - zl) > tol:
         return 'load %r on feed pulse %d shifts the feed impedance by %r' % (zl, p + 1, d)
+    # "several loads on one pulse act as their sum", also when it is one load definition that reaches the pulse through
+    # several attachments (the pulse itself twice; the whole object / antenna plus the pulse): each attachment is listed
+    # as a load of its own and acts in series
+    for how in ('twice', 'all+pulse', 'object+pulse'):
+        m2 = antgen.build(ant, media=media()); m2.register_source(Excitation(1 + 0j), p)
+        ld = Impedance_Load(zl)
+        if how == 'twice':
+            m2.register_load(ld, p); m2.register_load(ld, p)
+        elif how == 'all+pulse':
+            m2.register_load(ld); m2.register_load(ld, p)
+        else:
+            g = m2.pulses[p].geobj
+            k = [q.idx for q in g.pulses].index(p)
+            m2.register_load(ld, None, g.tag); m2.register_load(ld, k, g.tag)
+        m2.compute()
+        # reference: the same attachments with one load object each
+        m3 = antgen.build(ant, media=media()); m3.register_source(Excitation(1 + 0j), p)
+        for q in ld.pulses:
+            m3.register_load(Impedance_Load(zl), q.idx)
+        m3.compute()
+        z2, z3 = m2.sources[0].impedance, m3.sources[0].impedance
+        if abs(z2 - z3) > 1e-9 * max(antgen.cond(m3), 1) * max(abs(z3), abs(zl)):
+            return ('one load of %r ohm attached %s (feed pulse %d): feed impedance %r; the same attachments as separate loads give %r'
+                    % (zl, {'twice': 'twice to the feed pulse', 'all+pulse': 'to the whole antenna and to the feed pulse',
+                            'object+pulse': 'to its whole object and to the feed pulse'}[how], p + 1, z2, z3))
+        if how == 'twice' and abs((z2 - m0.sources[0].impedance) - 2 * zl) > tol * 2:
+            return 'load %r attached twice to feed pulse %d shifts the feed impedance by %r' % (zl, p + 1, z2 - m0.sources[0].impedance)
     return None
 
 
